@@ -131,6 +131,8 @@ class C17(Prop):
             extra = (("COMP", "", "ACME", "COMPANY"), ("Comp", "", "other", "COMPANY AGAIN"), ("", "", "12", "blank one")) \
                 if init.get("dups") else (("COMP", "", "ACME", "COMPANY"),)
             lines = docmodel.simple_doc(nc, nr, cell=cell, curve_names=names, well_extra=extra)
+            k = [i for i, ln in enumerate(lines) if ln.startswith("~A")][0]
+            lines[k:k] = ["~Xtra custom section", docmodel.hline("K1", "", "11", "custom item"), docmodel.hline("K1", "U", "12", "custom dup")]
             las = lasio.read(io.StringIO(docmodel.join(lines)), engine=init["engine"], mnemonic_case=init["case"])
             cm.las = las
             cm.rows = nr
